@@ -26,7 +26,7 @@ DEFAULT_FEATURES = {
     "refined": 4, "cls": 6, "list": 2, "annlist": 3, "tuple": 0, "union": 1, "dependent": 0, "flaky": 0,
     "weights": 0, "nested": 1, "standalone": 1, "unreachable": 1, "plain": 1, "infeasible": 0,
     "max_abstract": 3, "max_classes": 9, "max_fields": 3, "future_annotations": 0, "concrete_start": 0,
-    "base_in_list": 1, "finite": 0, "nested_generic": 0, "nested_list": 0, "deep_chain": 0, "self_ref": 0, "multi_dependent": 0, "abstract_weights": 0, "nested_start": 0, "hollow": 0, "barren": 0, "falsy": 0, "wide_weights": 0, "inherited_ctor": 0, "zero_rules": 0, "union_generic": 0, "same_name": 0,
+    "base_in_list": 1, "finite": 0, "nested_generic": 0, "nested_list": 0, "deep_chain": 0, "self_ref": 0, "multi_dependent": 0, "abstract_weights": 0, "nested_start": 0, "hollow": 0, "barren": 0, "falsy": 0, "wide_weights": 0, "inherited_ctor": 0, "zero_rules": 0, "union_generic": 0, "same_name": 0, "shared_handlers": 0,
 }
 
 
@@ -361,6 +361,7 @@ def gen_spec(H: Chooser, feat=None) -> dict:
     return {"classes": classes, "start": start, "considered": considered,
             "future_annotations": bool(feat["future_annotations"] and H.draw(2)),
             "inline_lambdas": bool(feat["future_annotations"] and H.draw(2)),
+            "shared_handlers": bool(feat.get("shared_handlers") and H.draw(2)),
             "expansion_depthing": False}
 
 
@@ -378,10 +379,16 @@ def render_refinement(r, deps: list) -> str:
         return f"FloatList({r[1]!r})"
     if k == "VarRange":
         return f"VarRange({r[1]!r})"
-    if k == "ListSizeBetween":
-        return f"ListSizeBetween({r[1]}, {r[2]})"
-    if k == "LSBWLO":
-        return f"ListSizeBetweenWithoutListOperations({r[1]}, {r[2]})"
+    if k in ("ListSizeBetween", "LSBWLO"):
+        ctor = "ListSizeBetween" if k == "ListSizeBetween" else "ListSizeBetweenWithoutListOperations"
+        if SHARED_HANDLERS[0]:
+            # ONE refinement object declared on every list field with these bounds (`small = ListSizeBetween(1, 2)` at module level)
+            name = f"_shared_{ctor}_{r[1]}_{r[2]}"
+            definition = f"{name} = {ctor}({r[1]}, {r[2]})"
+            if definition not in deps:
+                deps.append(definition)
+            return name
+        return f"{ctor}({r[1]}, {r[2]})"
     if k == "StringSizeBetween":
         if r[3] == DEFAULT_ALPHABET:
             return f"StringSizeBetween({r[1]}, {r[2]})"
@@ -468,10 +475,12 @@ from sim.flaky import Flaky
 
 
 INLINE_LAMBDAS = [False]
+SHARED_HANDLERS = [False]
 
 
 def render_source(spec) -> str:
     INLINE_LAMBDAS[0] = bool(spec.get("inline_lambdas"))
+    SHARED_HANDLERS[0] = bool(spec.get("shared_handlers"))
     out = []
     if spec.get("future_annotations"):
         out.append("from __future__ import annotations")
